@@ -3,7 +3,7 @@ import json
 import os
 import time
 
-from . import facts, matrix, rules_decl, rules_val, rules_pair, rules_struct, rules_wl
+from . import facts, matrix, rules_decl, rules_val, rules_pair, rules_struct, rules_wl, rules_io, rules_ts, rules_xport
 from .model import LDG, LUG, DMG, UMG, DWG, UWG
 from .model import Model
 from .report import EVIDENCE, Finding, RuleResult, finish
@@ -137,6 +137,43 @@ def c16(m, tier):
         {'F-PAIR.N': 80, 'F-PAIR.T': 35, 'F-PAIR.M': 30, 'F-PAIR.L': 60})
 
 
+def c08(m, tier):
+    return [rules_xport.rule_idx(m), rules_struct.rule_full_loops(m), rules_ts.rule_typestate(m)]
+
+
+def c09(m, tier):
+    return [rules_xport.rule_xport(m), dropped_cells_result(m, {'ctor', 'conv', 'copy'}), rules_decl.rule_valsem(m)]
+
+
+def c10(m, tier):
+    return [rules_xport.rule_xport(m), rules_val.rule_val(m, val_engine(m)), dropped_cells_result(m, {'sub'})]
+
+
+def c13(m, tier):
+    return [rules_io.rule_schema_text(m), rules_io.rule_open(m), rules_io.rule_tokeniser_access(m), rules_io.rule_grow(m),
+            dropped_cells_result(m, {'io.text'})]
+
+
+def c14(m, tier):
+    out = [rules_io.rule_schema_binary(m), rules_io.rule_open(m), rules_io.rule_grow(m), rules_decl.rule_throw(m),
+           dropped_cells_result(m, {'io.bin'})]
+    if tier == 'thorough':
+        out.append(rules_io.rule_endian_ir())
+    return out
+
+
+def c15(m, tier):
+    return [rules_io.rule_checked_read(m), rules_io.rule_wrap(m), rules_io.rule_sign(m), rules_io.rule_grow(m),
+            rules_io.rule_tokeniser_access(m), rules_decl.rule_throw(m), rules_val.rule_val(m, val_engine(m))]
+
+
+def c17(m, tier):
+    wl, bound, heap = rules_wl.run_searches(m, {'S-LC'})
+    heap.require_sites(6, 'heap facts')
+    return [rules_ts.rule_typestate(m), heap, rules_io.rule_checked_read(m), rules_val.rule_val(m, val_engine(m)),
+            rules_xport.rule_idx(m), rules_io.rule_wrap(m), rules_io.rule_tokeniser_access(m)]
+
+
 def c11(m, tier):
     wl, bound, heap = rules_wl.run_searches(m, {'S-BFS', 'S-BFS-ALL'})
     wl.require_sites(100, 'schema facts')
@@ -228,6 +265,69 @@ PROPERTIES = {
                     'count / total adjusted once per removed copy (once-per-pair in the undirected family) and the label '
                     'kept (dedupe form of F-PAIR.N/.T/.M/.L).',
         assumptions=['all copies of a pair carry the same label (stated in the property)'], trusted_base=_STRUCT_TB),
+    'C08': dict(
+        level='other', fn=c08,
+        explanation='Decides that enumeration is defined on every graph including one without vertices: no range-asserting '
+                    'accessor is called with an internal index (literal 0, getEndVertex, size-1) except under a dominating '
+                    'size != 0 test, the cursor is incremented only under cursor != endVertex (F-IDX); range-for over a graph '
+                    'is [0,size) (F-LOOP); the undirected iterator yields exactly one orientation per pair and every loop '
+                    '(order-domain evaluation of the skip condition); post-increment is copy + pre-increment; list iterators '
+                    'are compared only for the same vertex (F-TS). That the sequence contains every edge exactly once for '
+                    'every adjacency shape is a statement about runtime list contents and is not decided.',
+        assumptions=['value-initialised list iterators compare equal (C++14 [forward.iterators])'], trusted_base=_STRUCT_TB),
+    'C09': dict(
+        level='other', fn=c09,
+        explanation='Decides conformance of getReversedGraph, getDirectedGraph, the undirected-from-directed constructor and '
+                    'the six families of edge-list constructors to their transport schemas (F-XPORT): complete enumeration of '
+                    'the source, label-carrying overload with the label read for exactly the enumerated pair, contractual '
+                    'orientation (evaluated over the orderings of the endpoints), result sized from the source / grown to '
+                    '1+max before each unforced insertion through the class\'s own public insertion; all constructor x '
+                    'container cells instantiate (witness cells); copies are member-wise deep (D-VALSEM). Equality of the '
+                    'result with an independently built expectation is not decided.',
+        assumptions=['C01-C03 for the target class'], trusted_base=_STRUCT_TB),
+    'C10': dict(
+        level='other', fn=c10,
+        explanation='Decides conformance of getSubgraph / getSubgraphWithRemap to the induced-subgraph schema (F-XPORT): an '
+                    'edge is inserted only under membership of the neighbour in the same set that is iterated, with the source '
+                    'label of the same pair, unforced; sizes from graph.getSize() / vertices.size(); the remap is one pass over '
+                    'the set with a counter incremented exactly once per element (hence one-to-one onto 0..|S|-1) and translates '
+                    'both endpoints; every member of the set is validated (F-VAL).',
+        assumptions=['C01-C03 for the target class; std::unordered_set iteration visits each element once'], trusted_base=_STRUCT_TB),
+    'C13': dict(
+        level='other', fn=c13,
+        explanation='Decides agreement of the text writer and loader on the format tables (F-IO.SCHEMA.text): comment '
+                    'character, separator in the delimiter set containing space and tab, token-to-argument dataflow, '
+                    'names[index(token_k)] = token_k, mapper evaluation order, VertexCountMapper first-appearance numbering; '
+                    'stream open check (F-IO.OPEN); growth to 1+largest index (F-IO.GROW); default/explicit converter cells '
+                    'compile. The tokeniser as a function on strings and round-trip equality are not decided.',
+        assumptions=['label text contains no line break and parses back (stated in the property)'], trusted_base=_STRUCT_TB),
+    'C14': dict(
+        level='other', fn=c14,
+        explanation='Decides that the binary file is exactly one fixed-size record per enumerated edge with fields in the '
+                    'order and width the loader reads (F-IO.SCHEMA.bin: writer/loader record sequences, u32 indices, default '
+                    'codecs, sizeof(T) transfers of the value, byte swap under one big-endian flag before the write / after '
+                    'the read, nothing else written), unopened files throw std::runtime_error in every routine (F-IO.OPEN, '
+                    'D-THROW); the thorough tier adds LLVM-IR probes for a little- and a big-endian target (F-IO.ENDIAN). '
+                    'Round-trip equality for a concrete graph is not decided.',
+        assumptions=['sizeof(VertexIndex) == 4 on the target'], trusted_base=_STRUCT_TB + ['clang -O2 IR for the probes']),
+    'C15': dict(
+        level='other', fn=c15,
+        explanation='Decides that no value is used after a read that may have failed (F-IO.READ: every use of a read buffer '
+                    'is dominated by the true edge of that read), that a text index cannot become negative-as-unsigned '
+                    '(F-IO.SIGN) nor wrap a size to 0 before the raw name-table subscripts (F-IO.WRAP, F-IO.GROW), that the '
+                    'tokeniser path uses only checked string accessors (F-IO.TOK), that the forced insertion validates its '
+                    'indices (F-VAL) and everything thrown derives from std::exception (D-THROW). "Returns exactly the '
+                    'complete records" as an equality on data is not decided.',
+        assumptions=['indices small enough to allocate'], trusted_base=_STRUCT_TB),
+    'C17': dict(
+        level='other', fn=c17,
+        explanation='Decides absence of specific undefined-behaviour classes on all paths: use of invalidated list '
+                    'iterators / label-store references / vector references (F-TS typestate over the CFG), heap precondition '
+                    'violations (F-HEAP), use of values from failed reads (F-IO.READ), unchecked subscripts by caller indices '
+                    'and internal indices (F-VAL, F-IDX), unsigned wrap feeding a size (F-IO.WRAP), unchecked string access '
+                    '(F-IO.TOK). Undefined behaviour outside these classes (arbitrary signed overflow, aliasing, lifetime) is '
+                    'not decided: no sound whole-program UB analysis for C++ is available on this image.',
+        assumptions=['standard containers behave as specified'], trusted_base=_STRUCT_TB),
     'C11': dict(
         level='other', fn=c11,
         explanation='Decides conformance of findVertexPredecessors to the schema S-BFS and of findAllVertexPredecessors '
